@@ -67,6 +67,14 @@ def run(ctx):
             cfg['inverse'] = cfg['inverse'] or rng.random() < 0.5
         cfg['report'] = 'mixed'
         cfg['disable_comments'] = False
+        if i % 12 == 7:
+            # a user namespace that equals the shapes namespace up to letter case (a vocabulary about geometric "Shapes"), declared first:
+            # IRIs are case-sensitive, the labels of both documents must stay in the shapes namespace
+            sn = cfg['shapes_ns']
+            k = sn.rstrip('/#').rfind('/') + 1
+            variant = sn[:k] + sn[k:].swapcase() if rng.random() < 0.5 else sn[:k] + sn[k:k + 1].upper() + sn[k + 1:]
+            if variant != sn and variant not in cfg['ns_dict']:
+                cfg['ns_dict'] = dict([(variant, 'fig')] + [(a, b) for a, b in cfg['ns_dict'].items() if b != 'fig'])
         cases.append((g, cfg))
     # one document whose ShExC text has more than 5000 lines (the serialisers write through a 5000-line buffer): 900 small classes
     big = []
